@@ -10,13 +10,13 @@ SPEC = {
         "database round trip through CCoinsViewCache::Flush into an in-memory LevelDB CCoinsViewDB (one per worker process)",
     ],
     "stages": [
-        gen("vh_c18", "c18_coincodec", 600000, 10000000, min_cases_quick=100000,
+        gen("vh_c18", "c18_coincodec", 600000, 10000000, max_seconds_quick=600, min_cases_quick=20000,
             floors={"special:0": 0.03, "special:1": 0.03, "special:2": 0.01, "special:3": 0.01, "special:4": 0.01, "special:5": 0.01, "script-near-miss": 0.15,
                     "amount:e=9": 0.02, "amount:e=1..8": 0.04, "amount:near-round": 0.1, "db-roundtrip": 0.1, "height=0": 0.03, "height>=2^30": 0.05,
                     "script:generic-oversize": 0.005, "multi-undo": 0.1},
             rule="coin/undo bytes == reference encoder, all round trips; non-trivial = special or near-miss script, or amount with trailing zeros / near d*10^e"),
         enum("vh_c18", "c18_amounts_small", rule="exhaustive: all amounts 0..2,000,000 and all whole-coin amounts k*1e8 (k<=21M): compress == reference, decompress inverts"),
-        gen("vh_c18", "up_script", 150000, 2000000, rule="upstream fuzz target script (CompressScript/DecompressScript round trip asserts + sanitizers), supplementary"),
+        gen("vh_c18", "up_script", 150000, 2000000, max_seconds_quick=600, rule="upstream fuzz target script (CompressScript/DecompressScript round trip asserts + sanitizers), supplementary"),
     ],
 }
 
